@@ -1424,6 +1424,10 @@ class Interp(object):
         return self.exec_function_body(f.node, fr)
 
     def str_join(self, sep, seq, node):
+        if isinstance(seq, SplitLines):
+            # sep.join(text.splitlines()): an uninterpreted function of (sep, text) - equal to text only when it has no line breaks
+            f = z3.Function('str_join_splitlines', z3.StringSort(), z3.StringSort(), z3.StringSort())
+            return SV('str', f(term(sep) if is_sym(sep) else z3.StringVal(sep), seq.t))
         if isinstance(seq, (SV, PatStr)):
             raise Unsupported('join over symbolic iterable')
         parts = []
@@ -1442,6 +1446,8 @@ class Interp(object):
             if attr in ('upper', 'lower', 'strip') and not args:
                 f = z3.Function(f'str_{attr}', z3.StringSort(), z3.StringSort())
                 return SV('str', f(obj.t))
+            if attr == 'splitlines' and not args:
+                return SplitLines(obj.t)
             if attr in ('isdigit', 'isdecimal', 'isnumeric', 'isalpha', 'isalnum', 'isspace', 'isascii') and not args:
                 # Unicode character classes: uninterpreted predicates of the text (Python's isdigit is NOT "all of 0-9")
                 return SV('bool', z3.Function(f'str_{attr}', z3.StringSort(), z3.BoolSort())(obj.t))
@@ -1449,6 +1455,12 @@ class Interp(object):
                 f = z3.Function(f'str_replace_{abs(hash((args[0], args[1]))) % 10**8}', z3.StringSort(), z3.StringSort())
                 return SV('str', f(obj.t))
         raise Unsupported(f'method .{attr} on symbolic {kind_of(obj)} (line {node.lineno})')
+
+
+class SplitLines(object):
+    """text.splitlines() of a symbolic text; only sep.join(...) of it is modelled."""
+    def __init__(self, t):
+        self.t = t
 
 
 class BoundSym(object):
@@ -1701,6 +1713,17 @@ def _b_range(self, args, kwargs, node):
     raise Unsupported('range() with symbolic bound outside a for loop / sum comprehension')
 
 
+def _b_copysign(self, args, kwargs, node):
+    """math.copysign(x, y) over reals: the sign of y; for y == 0 either sign (IEEE-754 has -0.0, which A-REAL cannot see,
+    so the zero case is a fresh boolean - both outcomes are explored)."""
+    if len(args) != 2 or kind_of(args[0]) not in NUM or kind_of(args[1]) not in NUM:
+        raise Raised(TypeError('must be real number'), node)
+    x, y = term(args[0], 'real'), term(args[1], 'real')
+    ax = z3.If(x >= 0, x, -x)
+    negzero = z3.Bool(f'negative_zero!{node.lineno}:{node.col_offset}')
+    return SV('real', z3.If(y > 0, ax, z3.If(y < 0, -ax, z3.If(negzero, -ax, ax))))
+
+
 def _b_getattr(self, args, kwargs, node):
     """getattr(symbolic object, 'constant name', default): an attribute the contract view does not know is an arbitrary value of
     the default's type that depends only on the object (uninterpreted function of the object)."""
@@ -1712,7 +1735,7 @@ def _b_getattr(self, args, kwargs, node):
 
 
 _SYM_BUILTINS = {
-    builtins.getattr: _b_getattr,
+    builtins.getattr: _b_getattr, math.copysign: _b_copysign,
     builtins.sum: _b_sum, builtins.min: _minmax(True), builtins.max: _minmax(False),
     builtins.float: _b_float, builtins.int: _b_int, builtins.str: _b_str, builtins.bool: _b_bool,
     builtins.len: _b_len, builtins.round: _b_round, math.ceil: _b_ceil, builtins.abs: _b_abs,
